@@ -324,9 +324,89 @@ def r12_4b(ctx, rc):
     r16_6(ctx, rc)
 
 
+def path_prefix_tests(ctx, rc):
+    """No containment decision between paths is taken by a plain string
+    prefix test: ``a.startswith(b)`` / ``os.path.commonprefix`` also match a
+    sibling whose name merely begins alike (out/gen vs out/gen2), so a
+    directory can be skipped (or removed) because of an unrelated one.  A
+    separator-terminated prefix (``b + os.sep``, ``os.path.join(b, '')``)
+    is a containment test."""
+    prog = ctx.prog
+    PATHY = ('os.path.', 'os.listdir', 'os.getcwd', 'os.fsdecode')
+    n = 0
+
+    def comp_iter(e):
+        # a comprehension variable stands for the elements of its iterable
+        if not isinstance(e, ast.Name):
+            return e
+        n = e
+        while n is not None:
+            n = prog.parent(n)
+            if isinstance(n, (ast.GeneratorExp, ast.ListComp, ast.SetComp,
+                              ast.DictComp)):
+                for g in n.generators:
+                    if any(isinstance(t, ast.Name) and t.id == e.id
+                           for t in ast.walk(g.target)):
+                        return g.iter
+            if isinstance(n, ast.FunctionDef):
+                break
+        return e
+
+    def pathlike(e, f, cn):
+        org = ctx.H.origins(comp_iter(e), f, cn)
+        for o in org:
+            if o[0] == 'call' and (str(o[1]).startswith(PATHY) or any(
+                    k in str(o[1]) for k in (
+                        'created_dirs', 'created_files', '_dirs_to_make',
+                        '_sanitize_filename'))):
+                return True
+            if o[0] in ('attr', 'field') and ('dir' in str(o[-1]) or
+                                              'filename' in str(o[-1])):
+                return True
+            if o[0] in ('param', 'api_param') and ('dir' in str(o[-1]) or
+                                                   'file' in str(o[-1])):
+                return True
+        return False
+    for f in prog.funcs.values():
+        for call in prog.calls_in(f):
+            fn = call.func
+            is_sw = isinstance(fn, ast.Attribute) and fn.attr == \
+                'startswith' and call.args
+            is_cp = 'os.path.commonprefix' in prog.resolve_call(call, f)
+            if not (is_sw or is_cp):
+                continue
+            cns = ctx.H.node_of(f, call)
+            if not cns:
+                continue
+            if is_sw:
+                arg = call.args[0]
+                sep_ok = any(
+                    (isinstance(x, ast.Attribute) and x.attr in (
+                        'sep', 'altsep')) or
+                    (isinstance(x, ast.Constant) and x.value in ('/', ''))
+                    for x in ast.walk(arg)) and not isinstance(arg, ast.Name)
+                if sep_ok or isinstance(arg, ast.Constant):
+                    continue
+                if not (pathlike(fn.value, f, cns[0]) and
+                        pathlike(arg, f, cns[0])):
+                    continue
+            n += 1
+            rc.violation(
+                'path-prefix-test | ' + f.qualname,
+                '%s decides a relation between two paths with a plain '
+                'string prefix test (%s): a sibling whose name begins alike '
+                'is taken for a descendant' % (
+                    f.qualname, ast.unparse(call)[:60]),
+                prog.loc(f, call), key='prefix test in ' + f.qualname)
+    if n == 0:
+        rc.ok({'string_prefix_tests_on_paths': 0},
+              key='no string-prefix containment test on paths')
+
+
 def r12_5(ctx, rc):
     R = ctx.R
     prog = ctx.prog
+    path_prefix_tests(ctx, rc)
     for name in ('clean', '_commit', '_roll_back'):
         F = R.builder_f(name)
         direct = []
@@ -432,6 +512,17 @@ def r12_7(ctx, rc):
     r9_6(ctx, rc)
 
 
+def r12_9(ctx, rc):
+    """The created-directory set stays exact under external deletion: a
+    directory of the previous build that vanished is known as removed
+    (R4.12), removed-knowledge survives while the directory is reserved
+    (R4.11) and the scan's verdict is memoised (R4.10)."""
+    from .c04 import r4_10, r4_11, r4_12
+    r4_10(ctx, rc)
+    r4_11(ctx, rc)
+    r4_12(ctx, rc)
+
+
 def r12_8(ctx, rc):
     """The cache file of the last committed build survives a failed write
     of the next one (R2.9): without it clean has nothing to go by."""
@@ -453,4 +544,6 @@ RULES = [
     ('R12.6', 'directory bookkeeping is seeded and re-registered', r12_6),
     ('R12.7', 'a concurrently created directory keeps an owner', r12_7),
     ('R12.8', 'a failed cache write keeps the previous cache file', r12_8),
+    ('R12.9', 'removed-directory knowledge: vanished, reserved, memoised',
+     r12_9),
 ]
